@@ -32,4 +32,11 @@ def obligations(tier):
                      desc='%s(signal_id symbolic in [COUNT, 65535]): error code and no access to the signal array' % fn,
                      bound='signal table of 1 slot (hook): every id >= 1 is out of range',
                      assumes=['signal_id >= JLS_SIGNAL_COUNT']))
+    from props.C01 import reader
+    for bits in ([4, 32] if tier == 'quick' else [1, 4, 8, 32, 64]):
+        ob = reader('O5_window_misuse_w%d' % bits, bits, 2, 600)
+        ob.defines = ob.defines + ['MODE_MISUSE=1']
+        ob.desc = 'jls_core_fsr with symbolic 64-bit start/length that is NOT a window inside the signal (negative, zero, overshoot by any amount incl. 1, overflowing sums): error code, no access'
+        ob.bound = 'signal of 1..%d samples; all 2^128 (start, length) pairs outside the signal' % (2 * ob.defines.count('x') + 8)
+        o.append(ob)
     return o
